@@ -1,6 +1,8 @@
+import os
 # C06 — all storage variants give identical query results
 import vlib
-from checks.db_common import run_db
+from checks.common import *
+from checks.db_common import run_db, spec_level
 
 META = dict(
     engine="coq+hx_core",
@@ -18,6 +20,20 @@ def run(ctx):
     n, steps = (60, 25) if ctx.tier == "quick" else (1500, 50)
     r = run_db(ctx, "all", n, steps, variants="file,mapped,any_mem,any_file,any_mapped")
     failures = [f for f in r["failures"] if f["cls"].startswith(("variant-",)) or f["cls"] in ("panic", "read-error")]
+    failures += [f for f in spec_level(r) if f["cls"] == "model-mismatch"][:3]
+    # values of every kind and size (boundary set incl. payloads beyond 64 KiB) through DbMemory, DbFile, Db and DbAny on the same
+    # files (the C12 harness): a value one variant reads back differently is a variant disagreement
+    tdir, blog = vlib.cargo_build("hx_core", "release")
+    if tdir is None:
+        raise RuntimeError("harness build failed: " + blog)
+    w = os.path.join(ctx.workdir, "values")
+    os.makedirs(w, exist_ok=True)
+    rc, out = vlib.sh([os.path.join(tdir, "hx_core"), "c12", "--seed", str(ctx.seed + 77), "--n", "300" if ctx.tier == "quick" else "5000", "--out", w], timeout=3000)
+    if rc != 0:
+        raise RuntimeError("value harness failed: " + out[-2000:])
+    vf = [dict(cls="variant-value-" + l.split(" ")[0], what=l[:3000]) for l in read_lines(os.path.join(w, "oracle.txt")) if l.startswith("value-")]
+    failures += vf
+    r = dict(r); r["dist"] = dict(r["dist"]); r["dist"]["values-through-all-variants:failures"] = len(vf)
     return dict(
         evaluations=r["cases"], distinct_nontrivial=r["nontrivial"], samples=r["samples"], dist=r["dist"],
         rule="%d generated query histories (profile all, <= %d steps incl. failing queries and multi-query transactions) executed on DbMemory and side by side on DbFile, Db (memory mapped), "
